@@ -11,10 +11,10 @@ import (
 	"os/exec"
 	"runtime"
 	"strings"
-	"sync"
 	"time"
 
 	"github.com/biogo/biogo/verifrt/vrt"
+	"verif/h/e1run"
 	"verif/h/enum"
 )
 
@@ -159,65 +159,9 @@ var Extra func(c *enum.Ctx)
 // ExtraReplay handles replay inputs that are not schedules.
 var ExtraReplay func(c *enum.Ctx, in json.RawMessage) bool
 
-// RunDrivers explores the named drivers of the E1 binary bin, one child process each, and folds what they
-// report into c; returns the per-driver summary for the evidence.
+// RunDrivers explores the named drivers of the E1 binary bin (see package e1run).
 func RunDrivers(c *enum.Ctx, bin string, names []string) map[string]interface{} {
-	outs := make([]childOut, len(names))
-	errs := make([]error, len(names))
-	var mu sync.Mutex
-	enum.Parallel(len(names), func(i int) {
-		t0 := time.Now()
-		cmd := exec.Command(bin, "--child", names[i], c.Tier)
-		cmd.Stderr = os.Stderr
-		data, err := cmd.Output()
-		if err == nil {
-			// the child may print infrastructure lines before the JSON
-			lines := strings.Split(strings.TrimSpace(string(data)), "\n")
-			err = json.Unmarshal([]byte(lines[len(lines)-1]), &outs[i])
-			for _, l := range lines[:len(lines)-1] {
-				fmt.Println("  ["+names[i]+"]", l)
-			}
-		}
-		errs[i] = err
-		mu.Lock()
-		if err == nil {
-			fmt.Printf("  driver %-28s %s completed=%s (%.1fs)\n", names[i], outs[i].Stats, outs[i].Completed, time.Since(t0).Seconds())
-		} else {
-			fmt.Printf("  driver %-28s INFRASTRUCTURE ERROR %v\n", names[i], err)
-		}
-		mu.Unlock()
-	})
-	per := map[string]interface{}{}
-	for i, o := range outs {
-		if errs[i] != nil {
-			c.NotExhaustive(fmt.Sprintf("driver %s: child failed: %v", names[i], errs[i]))
-			continue
-		}
-		st := o.Stats
-		c.EvalN(st.Executions)
-		c.MC(st.States, st.Transitions, st.Executions)
-		for k := range st.Outcomes {
-			c.Nontrivial(o.Name + "|" + k)
-		}
-		if !st.Exhaustive {
-			c.NotExhaustive(fmt.Sprintf("driver %s: %s; completed bound: %s", o.Name, st.Why, o.Completed))
-		}
-		if st.Foreign > 0 {
-			c.Note("driver %s: %d operations from uncontrolled goroutines passed through", o.Name, st.Foreign)
-		}
-		if len(st.Outcomes) == 1 && st.Executions > 50 {
-			c.Note("driver %s: one outcome from %d executions (nothing collided?)", o.Name, st.Executions)
-		}
-		per[o.Name] = map[string]interface{}{"executions": st.Executions, "states": st.States, "transitions": st.Transitions, "cuts": st.Cuts,
-			"max_depth": st.MaxDepth, "threads": st.MaxThreads, "outcomes": st.OutcomeList(), "exhaustive": st.Exhaustive, "bound": o.Completed, "symmetry_cross_check": o.SymCheck}
-		if len(st.Samples) > 0 {
-			c.Sample(map[string]interface{}{"driver": o.Name, "schedule": st.Samples[0]})
-		}
-		for _, v := range o.Violations {
-			c.Fail(v.Class, replayIn{Driver: o.Name, Choices: v.Choices, Trace: v.Trace}, "driver %s: %s\n    schedule: %s", o.Name, v.Msg, strings.Join(v.Trace, "\n              "))
-		}
-	}
-	return per
+	return e1run.RunDrivers(c, bin, names)
 }
 
 // Main is the entry point of an E1 harness binary.
